@@ -75,6 +75,9 @@ func loadKnownFindings() []KnownFinding {
 // the failing case; witness values of symbolic notes do not.
 func violNoteKey(v *Violation) string {
 	out := ""
+	if v.Kind == "blocked" {
+		return "" // the blocked sites in the message identify a deadlock
+	}
 	for _, n := range v.Notes {
 		if n.Key == "violated-earlier" || strings.Contains(n.Val, "(witness") {
 			continue
